@@ -546,6 +546,21 @@ func checkTimechart(q *model.StatsQuery, text string, sr *sut.SearchResult, matc
 			for _, val := range order {
 				nSeries[val] = true
 				for _, m := range q.Measures {
+					if m.Field != "" && m.Fn != "count" {
+						// a cell in which no event carries the measure field has no input for the measure:
+						// whether the engine omits the series or fills it in is not stated
+						has := false
+						for _, e := range byVal[val] {
+							flat, _ := e.Flat()
+							if v, ok := flat[m.Field]; ok && v.K != model.KNull {
+								has = true
+								break
+							}
+						}
+						if !has {
+							continue
+						}
+					}
 					ex := model.ExpectMeasure(byVal[val], m, kinds)
 					key := m.Key() + ": " + val
 					v, present := b.b.Vals[key]
